@@ -209,6 +209,8 @@ def _decode_node(start, lexer):
     predicate = lexer.expect_type(SYMBOL).lower()
     lnk = Lnk(lexer.accept_type(LNK))
     carg = lexer.accept_type(CARG)
+    if carg is not None:
+        carg = _unescape(carg)
     nodetype, properties = _decode_properties(start, lexer)
     edges = _decode_edges(start, lexer)
     return Node(start, predicate, nodetype, edges, properties, carg, lnk)
@@ -292,7 +294,7 @@ def _encode_node(node, properties, lnk):
         parts.append(str(node.lnk))
 
     if node.carg is not None:
-        parts.append('("{}")'.format(node.carg))
+        parts.append('("{}")'.format(_escape(node.carg)))
 
     if properties and (node.properties or node.type):
         parts.append('{')
@@ -313,3 +315,22 @@ def _encode_node(node, properties, lnk):
     parts.append(']')
 
     return ''.join(parts)
+
+
+# Character Escaping (as in SimpleMRS)
+
+def _escape(s: str) -> str:
+    return s.replace('\\', '\\\\').replace('"', '\\"')
+
+
+def _unescape(s: str) -> str:
+    cs = []
+    i = 0
+    while i < len(s):
+        if s[i] == '\\' and (i + 1) < len(s):
+            cs.append(s[i+1])
+            i += 2
+        else:
+            cs.append(s[i])
+            i += 1
+    return "".join(cs)
